@@ -1,14 +1,14 @@
 ------------------------------ MODULE Trace_Tls ------------------------------
 EXTENDS Tls, Integers, Sequences, FiniteSets, TraceKit
-Fresh(stim) == [stim |-> stim, handlers |-> 0, first |-> 0, certs |-> -1, digests |-> <<>>, client |-> FALSE]
+Fresh(stim) == [stim |-> stim, handlers |-> 0, first |-> 0, certs |-> -1, ext |-> -1, digests |-> <<>>, client |-> FALSE]
 Keys == {"runs", "second_connections", "second_resumed", "chained_identity", "calls_through", "refused", "with_client_cert", "no_tls_config", "alpn_missing"}
 Init == InitK(Fresh([roots |-> "none"]), Keys)
 Reset == ResetK(Fresh(E.stim)) /\ Count({"runs"} \cup (IF CallTransmitted(E.stim) THEN {"calls_through"} ELSE {"refused"}) \cup (IF E.stim.identity # "none" THEN {"with_client_cert"} ELSE {}) \cup (IF E.stim.identity \in {"chain", "chain_leaf_only"} THEN {"chained_identity"} ELSE {})
                                          \cup (IF ~E.stim.tls_cfg THEN {"no_tls_config"} ELSE {}) \cup (IF E.stim.alpn # "h2" THEN {"alpn_missing"} ELSE {}))
-Handler == /\ Live("handler") /\ UNCHANGED stats /\ JudgeK(<<>>, [s EXCEPT !.handlers = @ + 1, !.certs = E.peer_certs, !.digests = E.peer_digests])
+Handler == /\ Live("handler") /\ UNCHANGED stats /\ JudgeK(<<>>, [s EXCEPT !.handlers = @ + 1, !.certs = E.peer_certs, !.ext = E.ext_certs, !.digests = E.peer_digests])
 SrvFail == /\ l <= Len(Rec) /\ ~dead /\ E.e \in {"server_handshake_failed", "server_config_rejected"} /\ l' = l + 1 /\ UNCHANGED <<run, stats>> /\ JudgeK(<<>>, s)
 Client == /\ Live("client") /\ UNCHANGED stats
-          /\ JudgeK(Clauses(s.stim, [call_ok |-> E.call = "ok", handler_runs |-> s.handlers, peer_certs |-> s.certs, peer_digests |-> s.digests, first_bytes |-> IF "first_bytes" \in DOMAIN E THEN E.first_bytes ELSE "none"])
+          /\ JudgeK(Clauses(s.stim, [call_ok |-> E.call = "ok", handler_runs |-> s.handlers, peer_certs |-> s.certs, ext_certs |-> s.ext, peer_digests |-> s.digests, first_bytes |-> IF "first_bytes" \in DOMAIN E THEN E.first_bytes ELSE "none"])
                     \o << <<"C15.ConnectNeverHangs", E.connect # "hang" /\ E.call # "hang">> >>, [s EXCEPT !.client = TRUE, !.first = s.handlers])
 \* the second connection of a two-connection run: s.handlers counts both connections' requests, the first one's share is s.first
 Client2 == /\ Live("client2")
